@@ -566,17 +566,42 @@ def purify(terms):
     return [tr(t) for t in terms]
 
 
+def _zero_vars(hyps):
+    """variables that the positive equality hypotheses force to zero (e.g. `0 == g00*g10` with g00 > 0): decided by z3, used to
+    specialise a goal before the rational-function normaliser (which cannot use hypotheses) sees it"""
+    cands = {}
+    def walk(t, depth=0):
+        if z3.is_const(t) and t.decl().kind() == z3.Z3_OP_UNINTERPRETED and t.sort() == R and t.get_id() not in SQRT_OF: cands[t.get_id()] = t
+        elif depth < 6:
+            for ch in t.children(): walk(ch, depth + 1)
+    for h in hyps:
+        if z3.is_eq(h) and h.arg(0).sort() == R: walk(h)
+    out = []
+    for v in list(cands.values())[:16]:
+        s = z3.Solver(); s.set('timeout', 1000); s.add(*GLOBAL_FACTS); s.add(*hyps); s.add(v != 0)
+        if s.check() == z3.unsat: out.append((v, z3.RealVal(0)))
+    return out
+
+
 def _try_field(hyps, goal, t0, exact):
     try:
         from . import field
         ok, info = field.prove_eq(goal)
+        if not ok and info == 'numerator does not reduce to zero':
+            sub = _zero_vars(hyps)
+            if sub:
+                ok, info = field.prove_eq(z3.substitute(goal, *sub), sub=sub)
     except Exception as e:
         ok, info = False, str(e)
-    if not ok: return None
+    if not ok:
+        if os.environ.get('PVC_DEBUG_FIELD'): print('FIELD: identity not shown:', info, file=sys.stderr)
+        return None
     for den in info:
         s2 = z3.Solver(); s2.set('timeout', 10000)
         s2.add(*GLOBAL_FACTS); s2.add(*hyps); s2.add(den == 0)
-        if s2.check() != z3.unsat: return None
+        if s2.check() != z3.unsat:
+            if os.environ.get('PVC_DEBUG_FIELD'): print('FIELD: denominator not shown non-zero:', str(den)[:300], file=sys.stderr)
+            return None
     return Verdict('proved', 'field+z3', time.time() - t0, exact=exact)
 
 
